@@ -105,7 +105,7 @@ func (r *c07Run) closeSlot(slot, how int64) {
 func (r *c07Run) reset() {
 	w := r.w
 	for _, n := range c07Names {
-		w.l.Mux().RemoveHandler(n)
+		w.l.RemoveStreamHandler(n) // through the host: its identify snapshot follows
 	}
 	for k, sl := range r.slots {
 		sl.d.Reset()
